@@ -31,6 +31,8 @@ type InjectCase struct {
 	Hist []string `json:"hist,omitempty"` // C07: the entry used by each run
 	// Sub: name of the directory (below the scratch directory) that holds the file
 	Sub string `json:"sub,omitempty"`
+	// Via: how the CLI runs are told where the files are (see injectVia)
+	Via string `json:"via,omitempty"`
 }
 
 // genDirName: how the directory handed to the tool is called.  Names with glob metacharacters are
@@ -67,6 +69,16 @@ func newWorkDir() string {
 func runInjector(mode, dir, path string) (output string, err error) {
 	return runInjectorAs(false, mode, dir, path)
 }
+
+// injectVia: how the CLI is told where the files are ("" = absolute paths, as everywhere else):
+//
+//	rel      the process runs in the parent directory and gets <base>, <base>/*.go, <base>/<file>
+//	rel-dot  the same with a leading ./
+//	dotdot   an absolute path that ends in <symlink>/.. where the link points one level below the
+//	         directory (the kernel resolves it to the directory, lexical cleaning does not)
+var injectVia string
+
+var injectVias = []string{"", "", "", "rel", "rel", "rel-dot", "dotdot"}
 
 const nobodyID = 65534
 
@@ -157,18 +169,39 @@ func runInjectorAs(unpriv bool, mode, dir, path string) (output string, err erro
 		return "", fmt.Errorf("VERIF_PGV not set")
 	}
 	var cmd *exec.Cmd
+	argDir, runIn := dir, ""
+	switch injectVia {
+	case "rel":
+		argDir, runIn = filepath.Base(dir), filepath.Dir(dir)
+	case "rel-dot":
+		argDir, runIn = "."+string(filepath.Separator)+filepath.Base(dir), filepath.Dir(dir)
+	case "dotdot":
+		if mode == "cli-p" || mode == "cli-p-glob" {
+			break // (filepath.Glob joins its matches lexically: <link>/../x.go names another file; the pattern is the user's own)
+		}
+		inner := filepath.Join(dir, ".verif-inner")
+		link := dir + ".lnk"
+		_ = os.Mkdir(inner, 0o755)
+		_ = os.Remove(link)
+		if err := os.Symlink(inner, link); err == nil {
+			defer os.Remove(link)
+			argDir = link + string(filepath.Separator) + ".."
+		}
+	}
+	sep := string(filepath.Separator)
 	switch mode {
 	case "cli-f":
-		cmd = exec.Command(pgv, "-f", path)
+		cmd = exec.Command(pgv, "-f", argDir+sep+filepath.Base(path))
 	case "cli-d":
-		cmd = exec.Command(pgv, "-d", dir)
+		cmd = exec.Command(pgv, "-d", argDir)
 	case "cli-p":
-		cmd = exec.Command(pgv, "-p", filepath.Join(dir, "*.go"))
+		cmd = exec.Command(pgv, "-p", argDir+sep+"*.go")
 	case "cli-p-glob": // path is a glob relative to dir
-		cmd = exec.Command(pgv, "-p", filepath.Join(dir, path))
+		cmd = exec.Command(pgv, "-p", argDir+sep+path)
 	default:
 		return "", fmt.Errorf("bad mode %s", mode)
 	}
+	cmd.Dir = runIn
 	if unpriv && unprivHow() == "setuid" {
 		cmd.Path, cmd.Args[0] = unprivState.pgv, unprivState.pgv
 		cmd.SysProcAttr = &syscall.SysProcAttr{Credential: &syscall.Credential{Uid: nobodyID, Gid: nobodyID}}
@@ -313,6 +346,8 @@ func checkInject(c *InjectCase) string {
 	if err := os.WriteFile(path, []byte(in), 0o644); err != nil {
 		return "harness: " + err.Error()
 	}
+	injectVia = c.Via
+	defer func() { injectVia = "" }()
 	if _, err := runInjector(c.Mode, dir, path); err != nil {
 		return err.Error()
 	}
@@ -334,6 +369,9 @@ func genInjectCase(t *rapid.T) *InjectCase {
 		c.Mode = rapid.SampledFrom([]string{"cli-f", "cli-d", "cli-p"}).Draw(t, "cliMode")
 	}
 	c.Sub = genDirName(t, c.Mode == "cli-p")
+	if strings.HasPrefix(c.Mode, "cli-") {
+		c.Via = rapid.SampledFrom(injectVias).Draw(t, "via")
+	}
 	return c
 }
 
@@ -345,6 +383,9 @@ func TestC06(t *testing.T) {
 		ev.Class("mode=" + c.Mode)
 		if c.Sub != "" {
 			ev.Class("directory-name=" + c.Sub)
+		}
+		if c.Via != "" {
+			ev.Class("path-given-as=" + c.Via)
 		}
 		if ov {
 			ev.Class("overrides-existing-key")
